@@ -137,7 +137,7 @@ func (vfs *MemFS) VolumeDelete(path string) error {
 
 	// The root directory of the volume is emptied and goes away with the volume
 	// (RemoveAll does not remove a root directory).
-	err := vfs.removeAll(nd)
+	err := vfs.removeAll(nd, true)
 	if err != nil {
 		return &fs.PathError{Op: op, Path: path, Err: err}
 	}
